@@ -107,4 +107,5 @@ def table_check(prop, repo, tier, seed, extra):
                                   "message": "Stream.%s: %s" % (r["dunder"], r.get("why"))})
 
 
-binary.extra_checks = [table_check]
+from pyvc.bounded import bounded_check
+binary.extra_checks = [table_check, bounded_check("bounded.c01", "broadcast-functions", ["C01"])]
